@@ -285,4 +285,27 @@ PROPS = {
             sub("permutation", "c02_kriging_laws", 2400, 48000, qw=2, tw=4),
             sub("translation", "c02_kriging_laws", 2400, 48000, qw=2, tw=4),
         ]),
+    "C10": dict(
+        level="exploration",
+        rule=("rapidcheck-generated programs: a construction slice (small Db/DbGrid/Model/Neigh/VarioParam) + an observed call with generated arguments "
+              "(evalCovMatrix{,Optim,Symmetric,SymmetricOptim}, kriging, xvalid, simtub(seed), Vario::compute, migrate, statistics, Db::createFromBox(seed), "
+              "NeighMoving::select) + 1-6 generated noise calls executed before it (const calls on the same objects, calls on other objects, FAILING calls, "
+              "global switches set and restored, RNG draws, object churn, a previous run of the same call with other arguments); fork oracle: child A runs "
+              "construction + observed call only (fresh process), child B the whole program, results compared (integers exact, reals 1e-9); copies (ctor, "
+              "operator=, clone) of 12 classes: mutate one side, destroy one side, other side unchanged and usable (forked child: use-after-free gets a keyed "
+              "failure); VectorT/VectorNumT model-based test against one std::vector per handle incl. kept iterators; KrigingCalcul after set*/get* sequences "
+              "and Model after addCov/delCov sequences vs freshly built objects; non-trivial = the noise contains a failing call or a call on an object shared "
+              "with the observed call (copies: a mutation was applied; vectort: a copy shares storage when an operation is applied); distinct = hash of the case text"),
+        assumptions=["outputs of noise calls go to clones of the output Db (adding columns is their documented effect, not history)",
+                     "NeighMoving is always given anisotropy coefficients",
+                     "an exception crossing a noise call makes the case inconclusive; a child killed by its 120 s alarm is inconclusive",
+                     "KrigingCalcul getters are compared only when the inputs their formulas dereference are present",
+                     "index lists returned by select() are compared in the order returned"],
+        subs=[
+            sub("history", "c10_history", 700, 40000, qw=4, tw=8),
+            sub("copies", "c10_history", 500, 20000, qw=2, tw=4),
+            sub("vectort", "c10_history", 5000, 200000),
+            sub("krigcalc", "c10_history", 3000, 100000),
+            sub("modelinc", "c10_history", 1500, 40000),
+        ]),
 }
